@@ -11,6 +11,17 @@ TRUST = ('TLC/SANY (and Apalache where named), the JSON bridge between TLC and t
          'guards the bridge. ')
 
 CHECKS = {
+    'C19': dict(
+        technique='TLA+ reference functions (spec/Split.tla: SplitPath over the /-separated fields of the rendered path; Encode/Quote and SplitRef parser over character classes for split_by_commas) with 13 invariants (result length, None padding, validity conditions, SplitRef(Encode(xs)) = xs, malformed => ValueError) checked by TLC on four enumerated families (paths x minsegs x maxsegs x rest_with_last, item lists, all character sequences up to length 6/7, malformed quoting patterns); every case rendered and executed',
+        category='model_checking',
+        text='split_path is specified on the fields of the path text (0..7 segments over plain/empty/dotted/spaced, leading and '
+             'trailing slash, minsegs 1..4, maxsegs None/0/min-1..min+2, rest_with_last) - 104k/286k cases - and split_by_commas as a '
+             'writer (Encode) and a parser (SplitRef) over eight character classes with the inverse law checked by TLC; the harness '
+             'renders every case (two renderings per path class), compares result lists / ValueError exactly, and checks every '
+             'character sequence up to length 6/7 and eight malformed-quoting patterns.',
+        design_ref='6/C19',
+        note=TRUST + 'Left open by the property and not compared: blanks outside quotes, backslash + ordinary character inside '
+             'quotes, control/non-ASCII characters; maxsegs=0 is read as not given (as the function does).'),
     'C14': dict(
         technique='TLA+ decision tables (spec/Scalars.tla) for bool_from_string / is_valid_boolstr / is_int_like / validate_integer / check_string_length / is_uuid_like with the relations BoolStrAgrees, BoolIgnoresPadCase, CanonImpliesLiteral, CanonIsLiteral checked by TLC; character-level recognisers of integer literals and canonical renderings over every string up to length 5/6; every row and string rendered and executed',
         category='model_checking',
